@@ -542,7 +542,10 @@ func libScan(g *FuncGen, c *ast.CallExpr, callee *types.Func, st *State) []Val {
 func libScanText(g *FuncGen, c *ast.CallExpr, callee *types.Func, st *State) []Val {
 	s := recvOf(g, c, st)
 	tok := g.ghostGet(st, "$sctok")
-	return []Val{{fmt.Sprintf("(select %s %s)", tok, s.T), types.Typ[types.String], "Bytes"}}
+	t := fmt.Sprintf("(select %s %s)", tok, s.T)
+	// a token is at most bufio.MaxScanTokenSize long (Scan fails on longer lines)
+	g.assume(st, fmt.Sprintf("(<= (blen %s) 65536)", t))
+	return []Val{{t, types.Typ[types.String], "Bytes"}}
 }
 
 func libBufferBytes(g *FuncGen, c *ast.CallExpr, callee *types.Func, st *State) []Val {
